@@ -7,7 +7,7 @@ From OV Require Import Base.Cases Model.Hier Model.HierSpec Proofs.HierBase Proo
 
 (* the terminal results the recursive matcher itself can produce *)
 Definition spec_term (t : term) : Prop :=
-  match t with TPanic _ => False | _ => True end.
+  match t with TPanic _ | TEof => False | _ => True end.
 
 Section Main.
   Variable try_leaf : leaf -> list unt -> option nat.
@@ -64,6 +64,64 @@ Section Main.
     intros ds us e t H. eapply seq_loop_term; [|exact H].
     apply Forall_forall. intros d _. apply sp_inst_term.
   Qed.
+
+  (* ---- the specification's own fuel always suffices ------------------------------------------------ *)
+  Section NoOof.
+    Variable inst_of : decl -> list unt -> mres inst.
+    Definition no_oof (d : decl) : Prop := forall us e, inst_of d us <> MErr e TOutOfFuel.
+
+    Lemma occ_loop_no_oof : forall d, shrinks try_leaf inst_of d -> no_oof d ->
+      forall f n us e, length us < f -> occ_loop try_leaf inst_of d f n us <> MErr e TOutOfFuel.
+    Proof.
+      intros d Hsh Hd. induction f as [|f IH]; intros n us e Hf H; [lia|].
+      rewrite occ_loop_S in H.
+      destruct (lt_max n (d_max d) && starts try_leaf d us) eqn:Eb.
+      - apply andb_prop in Eb. destruct Eb as [_ Est].
+        destruct (inst_of d us) as [e0 i0 us0|e0 t0] eqn:Ei.
+        + destruct (Hsh _ _ _ _ Ei) as [_ Hlt]. specialize (Hlt Est).
+          destruct (occ_loop try_leaf inst_of d f (S n) us0) as [e1 is1 us1|e1 t1] eqn:Eo; [discriminate|].
+          inversion H; subst. eapply (IH (S n) us0); [lia|exact Eo].
+        + inversion H; subst. eapply Hd; eauto.
+      - destruct (n <? d_min d); discriminate.
+    Qed.
+
+    Lemma seq_loop_no_oof : forall ds, Forall (shrinks try_leaf inst_of) ds -> Forall no_oof ds ->
+      forall us e, seq_loop try_leaf inst_of ds us <> MErr e TOutOfFuel.
+    Proof.
+      induction ds as [|d ds IH]; intros Hsh Hds us e H; [discriminate|].
+      inversion Hsh; inversion Hds; subst. rewrite seq_loop_cons in H.
+      destruct (occ_loop try_leaf inst_of d (S (length us)) 0 us) as [e1 is1 us1|e1 t1] eqn:Eo.
+      - destruct (seq_loop try_leaf inst_of ds us1) as [e2 is2 us2|e2 t2] eqn:Es; [discriminate|].
+        inversion H; subst. eapply IH; eauto.
+      - inversion H; subst. eapply occ_loop_no_oof; [| |apply Nat.lt_succ_diag_r|exact Eo]; auto.
+    Qed.
+  End NoOof.
+
+  Lemma sp_inst_no_oof : forall d, WF d -> no_oof (sp_inst try_leaf) d.
+  Proof.
+    induction d as [nm g t mn mx lf kids IH] using decl_ind2. intros Hd us e H.
+    pose proof (WF_kids try_leaf _ Hd) as Hk. simpl in Hk.
+    assert (Hsh : Forall (shrinks try_leaf (sp_inst try_leaf)) kids).
+    { apply Forall_forall. intros k Hin. apply sp_inst_shrinks. rewrite Forall_forall in Hk. auto. }
+    assert (Hno : Forall (no_oof (sp_inst try_leaf)) kids).
+    { apply Forall_forall. intros k Hin. rewrite Forall_forall in IH, Hk. auto. }
+    simpl in H. destruct g.
+    - destruct (seql kids us) as [e1 ks us1|e1 t1] eqn:Es; [discriminate|].
+      inversion H; subst. eapply seq_loop_no_oof; eauto.
+    - destruct (try_leaf lf us) as [n|]; [|discriminate].
+      destruct (seql kids (skipn n us)) as [e1 ks us1|e1 t1] eqn:Es; [discriminate|].
+      inversion H; subst. eapply seq_loop_no_oof; eauto.
+  Qed.
+
+  Theorem spec_fuel_enough : forall ds us, Forall WF ds -> snd (spec try_leaf ds us) <> TOutOfFuel.
+  Proof.
+    intros ds us Hwf. unfold spec.
+    destruct (seql ds us) as [e a [|u r]|e t] eqn:Es; cbn; try discriminate.
+    intros ->. eapply seq_loop_no_oof; [| |exact Es].
+    - apply Forall_forall. intros d Hin. apply sp_inst_shrinks. rewrite Forall_forall in Hwf. auto.
+    - apply Forall_forall. intros d Hin. apply sp_inst_no_oof. rewrite Forall_forall in Hwf. auto.
+  Qed.
+
 
   (* ---- runs ---------------------------------------------------------------------------------------- *)
   Section Runs.
